@@ -153,6 +153,24 @@ CHECKS.update({
     "C20": ("model_checking", E3, C20TXT, TB + "Grace period 15 s, default lifetime 90000 s from the documentation.", "DESIGN.md 6/C20"),
     "C18": ("model_checking", E2 + " (the deviation is shutdown at every step)", C18TXT,
             TB + "K=1 (quick, +K=2 on three scenarios), K=2 (thorough).", "DESIGN.md 6/C18"),
+    "C11": ("exploration", E1 + " (stand-in crypto modules bound to published vectors)",
+            "protect/unprotect on pairs of in-memory contexts, through the datagram codec: (a) 10 codes x option subsets of size <= 3 over "
+            "23 items x 4 payloads round-trip to the original code, Class-E options and payload; (b) the outer datagram, parsed "
+            "independently, shows only POST/FETCH/2.04/2.05 and OSCORE/Uri-Host/Uri-Port/Proxy-*/Observe and contains no inner marker; "
+            "(c) all 9 pairings of 3 responses with 3 requests (with and without own partial IV) verify iff they belong together; (d) every "
+            "single-bit flip and truncation of ciphertext and OSCORE option, value-changing edits of PIV/KID/ID context, and foreign keys "
+            "fail with a protection error (never another exception, never a different message), for ID lengths 0-7 x ID contexts x "
+            "sequence numbers up to 2^40-2 (x 5 algorithms thorough). RFC 8613 appendix C vectors are re-run on the tree.",
+            "Trusted: /verif/shims (cbor2, cryptography over OpenSSL libcrypto via ctypes, filelock), validated against RFC 3610, NIST "
+            "GCM, RFC 8439, RFC 5869, RFC 8949 vectors at start-up. Nothing is claimed about the real packages. Known finding C11-K1 (Proxy-Uri).",
+            "DESIGN.md 6/C11"),
+    "C12": ("model_checking", E3 + "; " + E1,
+            "ReplayWindow: BFS with dedup over all is_valid/strike_out histories for sizes 1-4 (depth 6-8), 8 and 32 (depth 4-5) from empty, "
+            "freshly-seen and persisted initialisations against a set-and-floor model, with a persist/reload probe in every state. "
+            "unprotect(): every arrival sequence up to length 3-5 over genuine requests with numbers {0,1,2,w-1,w,w+1,3w}, replays, "
+            "tag-flipped and foreign-key forgeries and Echo variants, for windows 2 and 32, initialised and uninitialised: accepted at most "
+            "once, old numbers refused, fresh numbers accepted, forgeries never move the window, nothing accepted before the right Echo.",
+            "Trusted: as C11.", "DESIGN.md 6/C12"),
     "C14": ("model_checking", E2,
             "Scripted submissions of CON/NON requests to two peers; the monitor rebuilds open-exchange/backlog state per remote from the "
             "wire and the applied events: never two open CON exchanges per remote, FIFO release in the very step the exchange ahead ends, "
